@@ -255,6 +255,18 @@ class StdModel:
                 self.used.add(q + '(std::array, std::array): element-wise, N = %s' % arr[0][1])
                 x, y = em.addr(args[0]), em.addr(args[1])
                 return '(%s(%s))' % ('!' if q.endswith('!=') else '', ' && '.join('(%s)->a[%d] == (%s)->a[%d]' % (x, k, y, k) for k in range(int(arr[0][1]))))
+        if q in ('std::numeric_limits::min', 'std::numeric_limits::max') and not args:
+            # the specialisation is read from the type of the call expression (long / int / long long ...)
+            ct = em.ctype(dq(n['type'])) if n is not None else ''
+            tab = {'long': ('(-9223372036854775807L - 1)', '9223372036854775807L'), 'long long': ('(-9223372036854775807LL - 1)', '9223372036854775807LL'),
+                   'int': ('(-2147483647 - 1)', '2147483647'), 'unsigned int': ('0u', '4294967295u'), 'unsigned long': ('0ul', '18446744073709551615ul')}
+            if ct in tab:
+                self.used.add(q + '<%s>' % ct)
+                return tab[ct][0 if q.endswith('min') else 1]
+        if q in ('abs', 'std::abs', 'labs', 'std::labs') and len(args) == 1 and em.ctype(dq(args[0]['type'])) in ('int', 'long'):
+            self.used.add('std::abs(integer)')
+            v = em.rv_or_lv(args[0])
+            return '((%s) < 0 ? -(%s) : (%s))' % (v, v, v)
         if q in ('std::begin', 'std::end', 'std::cbegin', 'std::cend') and len(args) == 1:
             vt = self.type(strip_cv(dq(args[0]['type'])).rstrip('& '), em) or ''
             p0 = em.addr(args[0])
